@@ -255,6 +255,26 @@ theorem partMinMax_sound (p : Part) (hv : ∀ b ∈ p.blocks, ValidBlock b) :
       (fun b'' hb'' x hx => by simp at hb''; subst hb''; exact ⟨hvb.lo x hx, hvb.hi x hx⟩)
       (fun b'' hb'' => hv b'' (by rw [hb]; exact List.mem_cons_of_mem _ hb'')) b' (by simpa using hb') x hxb
 
+/-- the columnar read path (`PullBatch`, repaired batch cut) returns the rows of the row path -/
+theorem queryPartsBatch_eq (cfg : Cfg) (hb : cfg.batchFinishRun = true) (hm : 0 < cfg.batchRows) (q : Query)
+    (parts : List (List Block)) (hv : ∀ p ∈ parts, ∀ b ∈ p, ValidBlock b) (h0 : ¬ (0 ∈ q.sids)) :
+    queryPartsBatch cfg q parts = queryParts q parts := by
+  unfold queryPartsBatch queryParts
+  simp only []
+  rw [hb]
+  exact pullAllBatch_eq_pullAll (minIdx_minChoice q) hm _ (cursorsOf_valid q parts hv h0)
+
+theorem tableQueryBatch_eq (cfg : Cfg) (hb : cfg.batchFinishRun = true) (hm : 0 < cfg.batchRows) (t : Table) (q : Query)
+    (hv : ∀ p ∈ t.parts, ∀ b ∈ p.blocks, ValidBlock b) (h0 : ¬ (0 ∈ q.sids)) :
+    t.queryBatch cfg q = t.query q := by
+  unfold Table.queryBatch Table.query
+  simp only []
+  refine queryPartsBatch_eq cfg hb hm q _ ?_ h0
+  intro bl hbl b hb'
+  rw [List.mem_map] at hbl
+  obtain ⟨p, hp, rfl⟩ := hbl
+  exact hv p (List.mem_filter.1 hp).1 b hb'
+
 /-- `Table.query`: resolution of the covered part of the table content, in query order -/
 theorem tableQuery_spec (t : Table) (q : Query) (hv : ∀ p ∈ t.parts, ∀ b ∈ p.blocks, ValidBlock b)
     (h0 : ¬ (0 ∈ q.sids)) :
